@@ -167,25 +167,30 @@ func oracleC17(v *View, vd *Verdict) {
 			inTime := func(stepT, ackT int64) bool {
 				return stepT >= 0 && ackT <= stepT+budget-v.R.StalledNs-nsMs
 			}
-			acked := false
-			gotRec := false
+			acked, ackedAtAll := false, false
+			gotRec, gotRecAtAll := false, false
 			for _, r := range rx {
 				if r.Idx < a.invIdx || r.Idx > a.retIdx || r.SNErr != nil || r.SN.MsgID != mid {
 					continue
 				}
 				switch {
 				case q == 1 && r.SN.Type == refsn.PUBACK && r.SN.RC == refsn.RCAccepted:
-					acked = inTime(pubT, r.T)
+					acked, ackedAtAll = inTime(pubT, r.T), true
 				case q == 2 && r.SN.Type == refsn.PUBREC:
-					gotRec = inTime(pubT, r.T)
-				case q == 2 && r.SN.Type == refsn.PUBCOMP && gotRec:
-					acked = inTime(relT, r.T)
+					gotRec, gotRecAtAll = inTime(pubT, r.T), true
+				case q == 2 && r.SN.Type == refsn.PUBCOMP:
+					if gotRec {
+						acked = inTime(relT, r.T)
+					}
+					if gotRecAtAll {
+						ackedAtAll = true
+					}
 				}
 			}
 			if acked && a.err != "nil" {
 				vd.Add("C17", fmt.Sprintf("C17/publish-failed-though-acked/qos%d", q), "client %s: Publish QoS %d id %d was acknowledged but returned %q", cp.Name, q, mid, a.err)
 			}
-			if !acked && a.err == "nil" {
+			if !ackedAtAll && a.err == "nil" {
 				vd.Add("C17", fmt.Sprintf("C17/publish-ok-without-ack/qos%d", q), "client %s: Publish QoS %d id %d returned nil without acknowledgement", cp.Name, q, mid)
 			}
 		}
